@@ -46,6 +46,8 @@ func main() {
 		os.Exit(cmdRun(os.Args[2:]))
 	case "replay":
 		os.Exit(cmdReplay(os.Args[2:]))
+	case "minimise":
+		os.Exit(cmdMinimise(os.Args[2:]))
 	case "trail":
 		if len(os.Args) < 3 {
 			os.Exit(2)
@@ -234,6 +236,32 @@ func cmdWorker(args []string) int {
 	if err := os.WriteFile(*out, b, 0o644); err != nil {
 		return 2
 	}
+	return 0
+}
+
+// cmdMinimise: delta-debug a replay file again with a larger budget (mhubsim minimise <file> [tries]) and rewrite it.
+func cmdMinimise(args []string) int {
+	if len(args) < 1 {
+		return 2
+	}
+	rf, err := sim.ReadReplay(args[0])
+	if err != nil || rf.Property == "C20" {
+		fmt.Fprintln(os.Stderr, "cannot minimise", args[0], err)
+		return 2
+	}
+	budget := 600
+	if len(args) > 1 {
+		if n, err := strconv.Atoi(args[1]); err == nil {
+			budget = n
+		}
+	}
+	before := len(rf.Intents)
+	rf.Intents = sim.Minimise(rf.Property, rf.Config, rf.Intents, rf.Signature, budget)
+	b, _ := json.MarshalIndent(rf, "", " ")
+	if err := os.WriteFile(args[0], b, 0o644); err != nil {
+		return 2
+	}
+	fmt.Printf("minimised %s: %d -> %d intents\n", args[0], before, len(rf.Intents))
 	return 0
 }
 
